@@ -39,6 +39,16 @@ def colliding_pair():
     return "aa", "ab"
 
 
+def prefix_colliding_pair():
+    """two tags in the same bucket one of which is a proper prefix of the other"""
+    for base in ("time", "inst", "id", "x", "db/id"):
+        hb = fnv(base.encode()) % 16
+        for suf in ("-ns", "s", "x", "-2", "/a", "!", "-utc", "1", "ab", "zz", "-q", "2"):
+            if fnv((base + suf).encode()) % 16 == hb:
+                return base, base + suf
+    return "time", "time-ns"
+
+
 def registry_oracle(ops):
     m, names, out = {}, [], []
     for op in ops:
@@ -48,7 +58,8 @@ def registry_oracle(ops):
         if k not in names:
             names.append(k)
         if o == "+":
-            m[k] = 1 if h == "1" else 2
+            hv = int(h)
+            m[k] = (hv // 10 if hv % 10 == 0 else hv) if hv >= 10 else (1 if hv == 1 else 2)
             tag = "1"
         elif o == "-":
             m.pop(k, None)
@@ -148,6 +159,22 @@ def run(tier):
     for n in range(1, maxlen + 1):
         for seq in itertools.product(ops, repeat=n):
             lines.append("G " + " ".join(seq))
+            exps.append(registry_oracle(seq))
+    # a registered tag must not answer for its own prefixes (nor the other way round), also inside one bucket
+    p1, p2 = prefix_colliding_pair()
+    pops = []
+    for t in (p1, p2):
+        pops += ["+%s=1" % t, "+%s=2" % t, "-%s" % t, "?%s" % t]
+    for n in range(1, maxlen + 1):
+        for seq in itertools.product(pops, repeat=n):
+            lines.append("G " + " ".join(seq))
+            exps.append(registry_oracle(seq))
+    rep.coverage["prefix_colliding_tags"] = [p1, p2]
+    # external types with and without a hash callback: re-registration replaces both callbacks
+    hops = ["+5=11", "+5=10", "+5=22", "+5=2", "+9=12", "-5", "?9"]
+    for n in range(1, maxlen + 1):
+        for seq in itertools.product(hops, repeat=n):
+            lines.append("X " + " ".join(seq))
             exps.append(registry_oracle(seq))
     ids = ["5", "21", "7", "1000000"]
     xops = []
